@@ -25,14 +25,14 @@ def gen(seed, tier):
     g = Gen(seed * 1000003 + 18)
     r = g.r
     cases = []
-    scripts = [[3, 0], [1, 0], [2, 0], [4, 0], [5, 0], [1, 3, 0]]
+    scripts = [[3, 0], [1, 0], [2, 0], [4, 0], [5, 0], [1, 3, 0], [2, 2, 0], [12, 0]]
     if tier != "quick":
         scripts += [[a, b, 0] for a in (1, 2, 3, 4, 5) for b in (1, 2, 4, 5)] + [[1, 2, 3, 1, 0], [3, 3, 0]]
     for i, sc in enumerate(scripts):
         pool = r.sample([x for x in ICAOS if x != SENT], 3)
         segs = []
         for ev in sc:
-            if ev == 3 or ev == 5:
+            if ev in (3, 5, 12):
                 segs.append("%d:" % ev)
             elif ev == 4:
                 segs.append(blob(4, bytes(r.getrandbits(8) for _ in range(200)).replace(b"\n", b" ") + b"\n" + g.junk_line().replace(b"\n", b"") + b"\n"))
@@ -74,6 +74,15 @@ def gen(seed, tier):
         part = ("@%012X%s;" % (r.getrandbits(48), g.f_df17(pool[0])))[:cut]
         cases.append(("C18-at%d" % i, "T", opts_str({"i": "x", "u": -1, "o": "x"}),
                       ";".join([blob(1, (full + part).encode()), seg(0, [sentinel(g)])])))
+    # the peer closes in the middle of a line whose fragment has the length of a short frame: 14 digits of a long reply, 26 with
+    # a timestamp, and neighbours
+    for i, (fmt, cut) in enumerate([(20, 14), (21, 14), (16, 14), (17, 14), (20, 13), (20, 15), (21, 27)]):
+        pool = r.sample([x for x in ICAOS if x != SENT], 2)
+        long_f = g.f_long(fmt, pool[0]) if fmt != 17 else g.f_df17(pool[0])
+        body = (g.f_df17(pool[1]) + "\n" + long_f[:cut]).encode()
+        cases.append(("C18-cut%d" % i, "T", opts_str({"i": "x", "u": -1, "o": "x"}), ";".join([blob(1, body), seg(0, [sentinel(g)])])))
+    body = (g.f_df17(pool[1]) + "\n@%012X" % r.getrandbits(48) + g.f_long(20, pool[0])[:14]).encode()
+    cases.append(("C18-cut-ts", "T", opts_str({"i": "x", "u": -1, "o": "x"}), ";".join([blob(1, body), seg(0, [sentinel(g)])])))
     # thousands of connections accepted and dropped at once (the loop must be a loop, not recursion), then a healthy one
     ncyc = 3000
     cases.append(("C18-cyc", "T", opts_str({"i": "x", "u": -1, "o": "x"}), ";".join([seg(1, [g.any_frame(r.choice(ICAOS[:3]))]), blob(11, str(ncyc).encode()), seg(0, [sentinel(g)])])))
@@ -123,9 +132,9 @@ def compare(parts, impl, model):
     if len(pauses) == len(events):
         gi = 0
         for k, e in enumerate(events):
-            if e in (3, 8):
+            if e in (3, 8, 12):
                 continue
-            if k > 0 and events[k - 1] not in (3, 8) and gi < len(gaps):
+            if k > 0 and events[k - 1] not in (3, 8, 12) and gi < len(gaps):
                 g = gaps[gi]
                 if pauses[k - 1] == 5 and not (3.5 <= g <= 9.0):
                     out.append("retry schedule: the model's loop pauses 5 s after attempt %d (event type %d), observed %.2f s" % (k - 1, events[k - 1], g))
@@ -147,7 +156,7 @@ def oracle(parts, outcome, obs):
     if d["alive"] != "1":
         fails.append("the decoder terminated during the session")
     events = [int(s.split(":", 1)[0]) for s in parts[3].split(";") if s]
-    want_conns = sum(1 for e in events if e not in (3, 8))
+    want_conns = sum(1 for e in events if e not in (3, 8, 12))
     for s in parts[3].split(";"):
         if s.startswith("11:!"):
             want_conns += int(bytes.fromhex(s[4:]).decode()) - 1
@@ -175,8 +184,9 @@ def oracle(parts, outcome, obs):
     gi = 0
     pending_refuse = False
     for e in events:
-        if e in (3, 8):
-            pending_refuse = 162.0 if e == 8 else 0.001
+        if e in (3, 8, 12):
+            # 12: the listener is away for 6.5 s -- two attempts are refused, each followed by a 5 s pause
+            pending_refuse = 162.0 if e == 8 else (9.0 if e == 12 else 0.001)
             continue
         if pending_refuse and gi < len(gaps):
             lo = 3.0 if pending_refuse < 1 else pending_refuse
